@@ -205,6 +205,7 @@ func (x *Xlat) havocRegion(st *State, key string) {
 			st.env[wk] = x.ctx.Fresh(wk, SBool)
 		}
 	}
+	x.ensureSort(s)
 	v := x.ctx.Fresh(key, s)
 	if ax := regionAxiom(key, v, x.get(st, allocKey, ArrSort(SRef, SBool)), x.get(st, arrAllocKey, ArrSort(SInt, SBool))); ax != nil {
 		x.ctx.constAxioms[v.Op] = append(x.ctx.constAxioms[v.Op], ax)
